@@ -11,7 +11,10 @@ import (
 // genVacancyPlan: a leader, 1-3 candidates, one or more vacancies by a drawn
 // cause, with lost/delayed watch events, failing Watch() calls and transient
 // store failures on the candidates before the vacancy.
-func genVacancyPlan(t *rapid.T) *Plan {
+func genVacancyPlan(t *rapid.T) *Plan { return genVacancyPlanCause(t, "") }
+
+// genVacancyPlanCause: forced != "" fixes the cause of the vacancy.
+func genVacancyPlanCause(t *rapid.T, forced string) *Plan {
 	h := rapid.SampledFrom([]time.Duration{100 * time.Millisecond, 200 * time.Millisecond, 300 * time.Millisecond, 700 * time.Millisecond, time.Second}).Draw(t, "H")
 	ttl := time.Duration(rapid.SampledFrom([]int{3, 3, 5}).Draw(t, "ratio")) * h
 	p := &Plan{Profile: "vacancy", H: h, TTL: ttl, SnapEvery: odd(h/2 + 3*time.Microsecond)}
@@ -31,6 +34,7 @@ func genVacancyPlan(t *rapid.T) *Plan {
 			in.WatchDelay = genLatList(t, 3*h, "wd")
 		}
 		in.WatchFail = rapid.SampledFrom([]int{0, 0, 0, 1, 2, 3}).Draw(t, "watch_fail")
+		in.WatchFailErr = rapid.SampledFrom([]string{"", "", "auth", "invalid", "bucket"}).Draw(t, "watch_fail_err")
 		p.Instances = append(p.Instances, in)
 		p.Timeline = append(p.Timeline, Action{At: odd(2*latMax + time.Duration(rapid.Int64Range(1, int64(2*h)).Draw(t, "cstart"))), Kind: ActStart, Inst: i})
 		if rapid.IntRange(0, 3).Draw(t, "ctx_restart") == 0 {
@@ -47,8 +51,33 @@ func genVacancyPlan(t *rapid.T) *Plan {
 		}
 	}
 	tv := odd(time.Duration(rapid.Int64Range(int64(4*h), int64(12*h)).Draw(t, "t_vacancy")))
-	cause := rapid.SampledFrom([]string{"stopctx-delete", "crash", "ext-delete", "stop", "health-demotion"}).Draw(t, "cause")
+	cause := rapid.SampledFrom([]string{"stopctx-delete", "crash", "ext-delete", "stop", "health-demotion", "foreign-record"}).Draw(t, "cause")
+	if forced != "" {
+		cause = forced
+	}
 	switch cause {
+	case "foreign-record":
+		// nobody leads: when the candidates start, the key holds a record some outside party left there (not a
+		// well-formed payload of a participant); it is removed at tv. Candidates with and without priorities /
+		// takeover: whatever they made of the foreign record, they must be back for the vacancy.
+		var tl []Action
+		for _, a := range p.Timeline {
+			if a.Inst != 0 {
+				tl = append(tl, a)
+			}
+		}
+		val := rapid.SampledFrom([]string{"{}", "null", "{\"token\":\"x\",\"priority\":5}", "{\"id\":\"\",\"token\":\"t\"}", "{\"id\":\"\"}", "not json", "", "[1,2]", "{\"id\":7,\"token\":true}"}).Draw(t, "foreign_value")
+		p.Timeline = append(tl, Action{At: 0, Kind: ActExtPut, Inst: -1, Key: "g", Value: []byte(val), Desc: "foreign: " + val},
+			Action{At: tv, Kind: ActExtDelete, Inst: -1, Key: "g"})
+		for i := 1; i < len(p.Instances); i++ {
+			if rapid.Bool().Draw(t, "cand_takeover") {
+				p.Instances[i].Priority, p.Instances[i].Takeover = rapid.IntRange(1, 3).Draw(t, "cand_prio"), true
+			}
+		}
+		// the record must outlive the candidates' start and last until tv: the outside party refreshes it
+		for at := p.StoreTTL() / 2; at < tv; at += p.StoreTTL() / 2 {
+			p.Timeline = append(p.Timeline, Action{At: odd(at), Kind: ActExtPut, Inst: -1, Key: "g", Value: []byte(val), Desc: "foreign: " + val})
+		}
 	case "health-demotion":
 		// the leader's own health check fails often enough to demote it; it stays started, its checker answers
 		// healthy again afterwards, and its record lapses: it is itself one of the candidates for the vacancy
@@ -107,7 +136,7 @@ func genVacancyPlan(t *rapid.T) *Plan {
 
 func TestC06(t *testing.T) {
 	RunCheck(t, CheckSpec{Prop: "C06",
-		Rule:        "a leader plus 1-3 candidates; the record becomes vacant by {graceful shutdown with DeleteKey, crash = permanent partition of the leader so that the record lapses, outside delete, plain Stop so that the record lapses, the leader's health check demoting it (the leader stays started, alone or with the candidates, and its record lapses)} at a generated instant (optionally a second vacancy later); per candidate: all / a random subset / none of the watch events lost, deliveries delayed up to 3H, Watch() failing 0-3 times, a transient error/time-out window on its store operations that ends, an end of its election by cancelling the Start context followed by a restart of the same object; jitter dice at the extremes. Oracle: for every vacancy instant (mutation log + expiry) with healthy started candidates, some candidate has a claim-up edge within 500ms + 100ms + 4 x max RTT of max(vacancy, candidate healthy, candidate started, last healthy claimant's claim end). Non-trivial = a vacancy with a healthy candidate and (no watch event of the vacancy delivered to any candidate, or an earlier Watch/partition failure on a candidate); distinct by plan hash.",
+		Rule:        "a leader plus 1-3 candidates; the record becomes vacant by {graceful shutdown with DeleteKey, crash = permanent partition of the leader so that the record lapses, outside delete, plain Stop so that the record lapses, the leader's health check demoting it (the leader stays started, alone or with the candidates, and its record lapses), or no leader at all: the key holds an outside party's record ({} / null / id-less / non-JSON / empty ...) when the candidates (with and without takeover) start, and it is deleted later} at a generated instant (optionally a second vacancy later); per candidate: all / a random subset / none of the watch events lost, deliveries delayed up to 3H, Watch() failing 0-3 times (with a time-out, or with an error that reads like a permanent one: authentication expired, invalid subscription, bucket not found), a transient error/time-out window on its store operations that ends, an end of its election by cancelling the Start context followed by a restart of the same object; jitter dice at the extremes. Oracle: for every vacancy instant (mutation log + expiry) with healthy started candidates, some candidate has a claim-up edge within 500ms + 100ms + 4 x max RTT of max(vacancy, candidate healthy, candidate started, last healthy claimant's claim end). Non-trivial = a vacancy with a healthy candidate and (no watch event of the vacancy delivered to any candidate, or an earlier Watch/partition failure on a candidate); distinct by plan hash.",
 		Gen:         genVacancyPlan,
 		Oracle:      OracleC06,
 		Assumptions: []string{"the allowance for 'operation latencies' is 4 x the largest request+response latency of the plan (Create, Watch, Get, Create)"}})
